@@ -1132,10 +1132,10 @@ class Environment:
             Use :class:`collections.ChainMap` to always prevent mutating
             environment globals.
         """
-        if d is None:
-            d = {}
-
-        return ChainMap(d, self.globals)
+        # The template's own mapping is a copy: later updates of one template's
+        # globals must neither reach another template created from the same
+        # dict nor modify the caller's dict.
+        return ChainMap({} if d is None else dict(d), self.globals)
 
 
 class Template:
